@@ -1,5 +1,5 @@
 (* C09chk.v — predicates for interleaved sessions. *)
-From Continuum Require Import Model.Base Model.VTable Model.Core Model.Manager
+From Continuum Require Import Model.Base Model.VTable Model.Core Model.Manager Model.Savepoint Model.ManagerSp
      Checks.Corechk Checks.CoreProps Checks.C06chk Proofs.CoreChainP.
 
 Record C09_case := {
@@ -10,8 +10,10 @@ Record C09_case := {
   c9_finals : list (nat * snap);                      (* connection id -> final content of its database *)
   c9_solo : list (nat * snap);                        (* ... when the session's program is run alone  *)
   c9_quiescent : bool;                                (* every session ended with commit/rollback/close *)
-  c9_obsonly : bool;                                  (* the programs use savepoints, which Layer M does not model:
-                                                         judged on the observations only (solo runs, quiescence) *)
+  c9_obsonly : bool;                                  (* judged on the observations only (solo runs, quiescence);
+                                                         not used by the generated cases any more *)
+  c9_spsteps : list (nat * nat * sev);                (* non-empty: the programs use savepoints; the schedule is replayed
+                                                         in Layer M with savepoints (Model/ManagerSp.v) instead of c9_steps *)
   c9_exc : bool }.
 
 Definition same_set_nat (a b : list nat) : bool :=
@@ -41,14 +43,26 @@ Definition db_matches (d : db) (sn : snap) : bool :=
   set_eqb lrow_eqb (d_live d) (sn_live sn) && table_eqb (d_vt d) (sn_vt sn) &&
   set_eqb arow_eqb (d_av d) (sn_av sn) && list_eqb Z.eqb (d_tx d) (sn_tx sn).
 
+Definition maps_match (G : gstate) (obs : list nat * list (nat * nat)) : bool :=
+  same_set_nat (map fst (g_uows G)) (fst obs) && same_set_pair (g_smap G) (snd obs).
+
+Definition C09_corr_sp (c : C09_case) : bool :=
+  let trace := gsrun_trace dbapi_id never_closed (c9_cfg c) gsp0
+                 (map (fun x => (mksess (fst (fst x)) (snd (fst x)), snd x)) (c9_spsteps c)) in
+  all2 (fun S obs => maps_match (gs_G S) obs) trace (c9_maps c) &&
+  let Gend := gs_G (last trace gsp0) in
+  forallb (fun cs => let '(d, _, err) := db_of Gend (fst cs) in db_matches d (snd cs) && negb err) (c9_finals c).
+
 Definition C09_corr (c : C09_case) : bool :=
   negb (c9_exc c) && cfg_consistentb (c9_cfg c) && hier_consistentb (c9_cfg c) &&
   if c9_obsonly c then true else
+  match c9_spsteps c with _ :: _ => C09_corr_sp c | [] =>
   let trace := grun_trace (c9_cfg c) gstate0 (c9_steps c) in
   all2 (fun G obs => same_set_nat (map fst (g_uows G)) (fst obs) && same_set_pair (g_smap G) (snd obs))
        trace (c9_maps c) &&
   let Gend := last trace gstate0 in
-  forallb (fun cs => let '(d, _, err) := db_of Gend (fst cs) in db_matches d (snd cs) && negb err) (c9_finals c).
+  forallb (fun cs => let '(d, _, err) := db_of Gend (fst cs) in db_matches d (snd cs) && negb err) (c9_finals c)
+  end.
 
 Definition C09_prop (c : C09_case) : bool :=
   negb (c9_exc c) &&
